@@ -5,6 +5,11 @@ V = os.path.dirname(os.path.dirname(os.path.abspath(__file__)))
 ALL = ["C%02d" % i for i in range(1, 20)]
 TECH = "symbolic execution of the real /repo source on z3 bit-vector proxies (symx), per-path SMT queries, concrete replay"
 CLAIMED = {
+ "C08": dict(text="Bounded symbolic verification: SCSICheckCondition/__str__/print_data on L symbolic sense bytes (table "
+                  "look-ups fork on hit/miss), plus exact-entry exploration of all sense keys and all ASC/ASCQ table "
+                  "entries; z3 decides per path 'never raises', SPC-4 positions of key/ASC/ASCQ, T10 text for the "
+                  "independent subset.", ref="3/C08",
+             note="text oracle = 155 ASC/ASCQ codes + 15 sense keys (partial sub-claim); lengths: 14 values quick, 1..252 thorough"),
  "C11": dict(text="Bounded exhaustive symbolic path exploration: every decoder on N fully symbolic bytes for each N in the "
                   "bound under a step budget proportional to N; all feasible paths are enumerated with z3 deciding each "
                   "data-dependent branch/slice bound; budget overruns are replayed concretely under a line counter.",
